@@ -29,6 +29,26 @@ CLAIMS.update({
  "C20": e2claim("§4.C20", "maximal_cliques and dsatur_coloring on every undirected simple graph on <=5 (thorough 6) nodes in nine encodings; greedy_feedback_arc_set on every directed multigraph list (n<=4); transitive reduction/closure on every DAG on <=4 (thorough 5) nodes with every valid toposort; all_simple_paths for all (a,b,min,max) on every digraph on <=4 nodes; steiner_tree on every weighted graph on <=5 nodes x every connected terminal set (2-approximation vs brute-force optimum); page_rank invariants and equivariance under every node permutation.", "Bounded sizes; steiner_tree iterates hashbrown maps whose seed the harness does not control (the property must hold for every seed; each run covers one); known findings D12, D23 listed in known_findings.json."),
 })
 
+
+E1c = "explicit-state BFS over operation histories of the real data structure in lockstep with a reference model (model checking of the implementation): full canonical state keys, fixpoint of a bounded universe, straight-line replay of discovery paths, dedup audit"
+def e1claim(design, what, note):
+    return dict(engine=E1, design=design, technique=E1c, text=what, note=note)
+CLAIMS.update({
+ "C01": e1claim("§4.C01", "Every history of the full public mutator alphabet of Graph (add/try_add/update/remove of nodes and edges, weight writes, IndexMut, index_twice_mut, node/edge_weights_mut, reverse, clear(_edges), retain_*, map, filter_map, extend_with_edges, from_edges, into_edge_type, clone(_from), StableGraph round trip, Build::*, capacity ops) over in-range, out-of-range and end() indices in a bounded universe (<=3 nodes / <=2-3 edges, both edge types inside one exploration, u8/u16/u32/usize) is executed on the real Graph; after every call the return value / documented panic, the exact concrete structure (all four link lists) and the complete query battery are compared with a plain multigraph model. u8 capacity: histories from 253..255-node and 253..255-edge fills.", "Bounded universe; where the documentation leaves renumbering open (remove_node edge order, retain_*) every documented possibility is accepted and the implementation's choice adopted; model RefMulti trusted."),
+ "C02": e1claim("§4.C02", "Every history of the StableGraph alphabet incl. every failing try_* form (absent, vacant, out-of-range endpoints, each with and without vacant slots) in a bounded universe: indices are stable until removal, add_* may return any non-live index, counts/bounds/iterators agree, failing calls leave the complete observation (abstract structure plus the index sequences a clone hands out next, i.e. both free lists incl. back links) unchanged, no valid call panics - in a build with petgraph's debug assertions and again in a build without them. u8 capacity from near-capacity fills with and without vacancies.", "Bounded universe; hidden free-list state is recovered through probes on clones; model RefMulti trusted."),
+ "C03": e1claim("§4.C03", "Every history of GraphMap operations over 3-4 keys (two key types incl. one with reversed Ord; RandomState, Fx and an all-colliding hasher; both edge types) to the fixpoint; full query battery for every key pair incl. a never-inserted key; return values of add_edge/remove_*; to_index/from_index bijection; into_graph/from_graph.", "Bounded key universe; RandomState seeds not controlled (IndexMap order does not depend on them)."),
+ "C04": e1claim("§4.C04", "Every history of MatrixGraph operations between existing nodes (both edge types, Option and NotZero null elements, u8/u16/usize, initial capacities 0..5) to the fixpoint, key includes matrix capacity and id-reuse order recovered by probes; plus an exhaustive sweep over all capacity boundaries up to 70 nodes (4/8/16/32/64/128 steps) checking the complete edge set after every growth step.", "Operations only between existing nodes (the property's quantifier); a refused try_update_edge is a no-op (note N1); extend_with_edges only on compact id spaces (note N8)."),
+ "C05": e1claim("§4.C05", "Every insertion history of Csr (directed/undirected, four index widths) and adj::List in a bounded universe with in- and out-of-range endpoints to the fixpoint (keys = Debug dump = complete structure); every input list of <=3-4 pairs for from_sorted_edges; sweep over row lengths 1..40 on both sides of the 32-neighbour binary-search cutoff in three fill orders with every target probed.", "Bounded universe."),
+ "C06": e2claim("§4.C06", "Every ordered edge list on 3 nodes (and simple graphs on 4) in all six graph types, every reachable state of a bounded StableGraph universe, and for Graph/StableGraph bases every adaptor (&G, Frozen, Reversed, UndirectedAdaptor, NodeFiltered over every node subset in closure/FixedBitSet/HashSet form, EdgeFiltered over every edge subset) and depth-2 stackings: all visit traits compared with the abstract graph the view must show.", "Bounded sizes; UndirectedAdaptor lenient (note N2); GraphMap<Undirected> EdgeIndexable only on ids from edge_references (N4)."),
+ "C07": e2claim("§4.C07", "Every labelled weighted (multi)graph on <=3-4 nodes - every relabeling is itself enumerated - stored in every graph type along several construction histories, index widths and vacancy patterns, plus every reachable StableGraph state of a bounded universe; every generic algorithm and walker the encoding's traits admit is run and judged by its own oracle, so unique answers agree across encodings and non-unique ones are equally valid/optimal; panics, out-of-bounds and hangs are violations.", "Bounded sizes; known finding D12 (page_rank on sparse index spaces)."),
+ "C14": e1claim("§4.C14", "Every history of add_node / try_add_edge / try_update_edge / Build::add_edge / Build::update_edge / remove_edge / remove_node (present, already removed, never existing) on Acyclic<DiGraph> and Acyclic<StableDiGraph> (u8/u32/usize) from new() and from try_from_graph of every acyclic digraph on <=3 nodes, to the fixpoint; all order invariants, is_valid_edge for all pairs, accept/reject exactness with error kinds, rejected operations leave everything unchanged; try_from_graph/TryFrom on every digraph on <=3-4 nodes; repeated without debug assertions.", "Bounded universe; positions are canonicalised by rank in the state key (behaviour depends on their order only); inner graph types are decided by C01/C02."),
+ "C17": dict(engine="E2 + E3 fault enumerator", design="§4.C17",
+   technique="exhaustive enumeration of round-trip inputs (E2 shapes and E1-reachable states) and of every mutant of a stated mutation alphabet over seed streams (fault enumeration), each accepted result validated by the C01/C02 lockstep machines",
+   text="Round trips (JSON and bincode) of every ordered edge list on 3 nodes in Graph/StableGraph/GraphMap encodings over four weight types and four index widths, of every reachable StableGraph state of a bounded universe, and of u8 graphs at the index limit, incl. cross-type loads. Faults: every truncation, every (position x replacement) of JSON and bincode seed streams, every JSON leaf/subtree replaced by 18 adversarial values, every array element deleted/duplicated/swapped, every key removed, and a structured generator over node_holes sequences and in-range/out-of-range/hole edge endpoints; each deserialisation must return Err or a graph that passes the complete C01/C02 validation, and never panic - with and without debug assertions.",
+   note="Mutation alphabets and seed universes bounded as stated; known finding D21 (exactly Ix::max elements)."),
+ "C18": e2claim("§4.C18", "graph6: every simple undirected graph on <=5 (thorough 6) nodes in five graph types / ten encodings and, for every n in 0..=70, the empty, complete, path, star, every single-edge and every single-non-edge graph: graph6_string() equals an independent encoder (cross-checked against networkx), from_graph6_string rebuilds exactly the described graph and re-encodes identically. Dot: every small (multi)graph x five graph types x all 32 Config subsets x RankDir x four formatters, and every weight string of length <=3 over an adversarial alphabet: the output is parsed by an independent DOT tokenizer/parser; statements and unescaped labels must match the graph.", "Sizes up to 258047 nodes are not reachable by execution; the 18-bit header is exercised up to 4096 nodes; reference codec/parser trusted."),
+})
+
 PENDING_REASON = "check not built yet in this round (see DESIGN.md §9 for the order); no claim is made"
 
 def main():
@@ -61,6 +81,7 @@ def main():
         "engines": [
             {"name": E1, "path": "harness/src/e1.rs", "serves_properties": ["C01","C02","C03","C04","C05","C06","C14","C17","C19"],
              "kind_free_text": "explicit-state level-synchronous BFS over operation histories of the real data structure stepped in lockstep with a reference model; full canonical state keys; straight-line replay of discovery paths; dedup audit"},
+            {"name": "E2 + E3 fault enumerator", "path": "harness/src/bin/c17.rs", "serves_properties": ["C17"], "kind_free_text": "exhaustive mutation of valid serialisation streams (truncations, byte replacements, JSON value/array/key edits, structured hole/endpoint generator); every accepted mutant is validated in lockstep by the E1 machines"},
             {"name": E2, "path": "harness/src/e2.rs", "serves_properties": ["C05","C06","C07","C08","C09","C10","C11","C12","C13","C15","C16","C17","C18","C20"],
              "kind_free_text": "exhaustive enumeration of every labelled input graph (bitmask shapes and ordered edge lists) within stated bounds, each run through the real algorithm on several encodings and compared with a brute-force oracle; sharded over 16 worker processes"},
         ],
